@@ -203,9 +203,10 @@ package dragonboat
 //@ ensures old(p.pending) != nil && p.pending == nil ==> len(old(p.pending).CompletedC) == old(len(p.pending.CompletedC)) + 1
 
 //@ func (p *pendingConfigChange) close [C12]
-//@ modifies held(p.mu), p.pending, chan(old(p.pending).CompletedC), old(p.pending).readyToRelease.val, p.confChangeC
+//@ modifies held(p.mu), p.pending, chan(old(p.pending).CompletedC), old(p.pending).readyToRelease.val, gClosedCC, p.confChangeC
 //@ ensures p.pending != nil ==> p.pending == old(p.pending) && len(p.pending.CompletedC) == old(len(p.pending.CompletedC))
 //@ ensures old(p.pending) != nil && p.pending == nil ==> len(old(p.pending).CompletedC) == old(len(p.pending.CompletedC)) + 1
+//@ ghostset gClosedCC := true
 
 //@ func (p *pendingSnapshot) apply [C12]
 //@ modifies held(p.mu), p.pending, chan(old(p.pending).CompletedC), old(p.pending).readyToRelease.val
@@ -218,10 +219,53 @@ package dragonboat
 //@ ensures old(p.pending) != nil && p.pending == nil ==> len(old(p.pending).CompletedC) == old(len(p.pending.CompletedC)) + 1
 
 //@ func (p *pendingSnapshot) close [C12]
-//@ modifies held(p.mu), p.pending, chan(old(p.pending).CompletedC), old(p.pending).readyToRelease.val, p.snapshotC
+//@ modifies held(p.mu), p.pending, chan(old(p.pending).CompletedC), old(p.pending).readyToRelease.val, gClosedSS, p.snapshotC
 //@ ensures p.pending != nil ==> p.pending == old(p.pending) && len(p.pending.CompletedC) == old(len(p.pending.CompletedC))
 //@ ensures old(p.pending) != nil && p.pending == nil ==> len(old(p.pending).CompletedC) == old(len(p.pending.CompletedC)) + 1
+//@ ghostset gClosedSS := true
 //@ func (p *pendingSnapshot) notify [C12]
 //@ requires p.pending != nil
 //@ modifies chan(p.pending.CompletedC), p.pending.readyToRelease.val
 //@ ensures old(len(p.pending.CompletedC)) < cap(p.pending.CompletedC) && len(p.pending.CompletedC) == old(len(p.pending.CompletedC)) + 1
+
+// ---------------------------------------------------------------- every pending request is eventually resolved (C12)
+// expiry is tick-driven: each tick of a replica advances the clocks of all its request tables,
+// whether the replica is quiesced or not
+//@ ghost var gProposalClockTick int
+//@ func (p *pendingProposal) tick [C12]
+//@ trusted advances the clock of every proposal shard (three-line loop)
+//@ ghostset gProposalClockTick := tick
+//@ func (q *quiesceState) tick [C12]
+//@ trusted quiesce bookkeeping
+//@ func (q *quiesceState) quiesced [C12]
+//@ trusted quiesce bookkeeping
+//@ func (n *node) tick [C12]
+//@ noframe
+//@ nobounds
+//@ modifies gProposalClockTick, n.currentTick
+//@ ensures result == nil ==> n.pendingSnapshot.ltick == tick && n.pendingReadIndexes.ltick == tick && n.pendingConfigChange.ltick == tick && gProposalClockTick == tick
+
+// stopping a replica terminates everything pending in all five request tables, unconditionally
+//@ ghost var gClosedProposals bool
+//@ ghost var gClosedReads bool
+//@ ghost var gClosedCC bool
+//@ ghost var gClosedSS bool
+//@ ghost var gClosedLQ bool
+//@ func (p *pendingProposal) close [C12]
+//@ trusted closes every proposal shard (three-line loop; proposalShard.close is under contract)
+//@ ghostset gClosedProposals := true
+//@ func (p *pendingReadIndex) close [C12]
+//@ trusted terminates queued and batched read requests
+//@ ghostset gClosedReads := true
+//@ func (p *pendingRaftLogQuery) close [C12]
+//@ trusted terminates the pending log query
+//@ ghostset gClosedLQ := true
+//@ func (n *node) requestRemoval [C12]
+//@ trusted closes the stop channel
+//@ func (q *raftEventListener) close [C12]
+//@ trusted stops the event listener
+//@ func (n *node) close [C12]
+//@ noframe
+//@ nobounds
+//@ modifies gClosedProposals, gClosedReads, gClosedCC, gClosedSS, gClosedLQ
+//@ ensures gClosedProposals && gClosedReads && gClosedCC && gClosedSS && gClosedLQ
